@@ -1,7 +1,7 @@
 """C04 - each report entry marks the failed sub-pattern's own source text."""
 import os
 import shutil
-from vlib import hexs, unhexs, CACHE
+from vlib import hexs, unhexs, CACHE, ROOT
 import gen
 
 
@@ -385,6 +385,30 @@ def e2e_part(ck):
             if marked == "" or marked != want:
                 ck.report("marked-text:" + hexs(c.text)[:40], "the byte range marked in the report is not the text of the failed sub-pattern's location",
                           dict(t3.describe(c), location=loc, marked_text=marked, text_at_location=want))
+    # The same statement when the process that runs the assertion is not the package that contains it: cargo sets
+    # CARGO_MANIFEST_DIR for every process it runs (`cargo test -p other`, a binary spawned by a cargo-run driver) to the package
+    # being RUN; the entry still has to carry its column range and mark the sub-pattern's text.
+    foreign = t3.run_corpus(ck, "c04-foreign-manifest", 40 if ck.tier == "quick" else 200, positions=make,
+                            run_env={"CARGO_MANIFEST_DIR": os.path.join(ROOT, "harness", "rt"), "CARGO_PKG_NAME": "other"})
+    fstats, fmism = t3.compare(ck, foreign, "c04-foreign-manifest")
+    fchecked = 0
+    for c in foreign:
+        if c.got[0] != "fail":
+            continue
+        for e in c.got[1]:
+            if len(e) < 6 or e[0] == "0.0.0.0":
+                continue
+            fchecked += 1
+            if e[5] is None or e[5] == "":
+                ck.report("no-span-foreign-manifest:" + hexs(c.text)[:40],
+                          "a report entry has no marked column range when the assertion runs in a process whose CARGO_MANIFEST_DIR names another package",
+                          dict(t3.describe(c), run_environment={"CARGO_MANIFEST_DIR": "<root of another package>"}, location=e[0]))
+    for m in fmism:
+        if m["kind"] == "entries":
+            ck.report("entry-location-foreign-manifest:" + hexs(m["case"].text)[:40], "the entries reported differ from the model's when CARGO_MANIFEST_DIR names another package", t3.describe(m["case"]))
+    ck.corr_record("T3 layouts run with a foreign CARGO_MANIFEST_DIR (the process running the assertion belongs to another package): entries keep their location and marked text",
+                   fchecked, len(foreign), len(fmism), dict(fstats, entries=fchecked),
+                   rule="the layout corpus, smaller; the compiled programs are run with CARGO_MANIFEST_DIR pointing at another package's root")
     ck.corr_record("T3 layouts (programs compiled by rustc with relaid-out patterns: reported location vs the anchored model location; marked bytes vs the characters at that location)",
                    entries, checked, loc_bad, dict(stats, failing_cases=checked, entries=entries, multi_line_invocations=multiline, entries_after_non_ascii_text_on_their_line=nonascii),
                    samples=[dict(invocation=c.text[:300]) for c in cases[:2]],
